@@ -400,7 +400,11 @@ class PayloadVENDOR(Payload):
 
     def to_dict(self):
         result = super().to_dict()
-        result['vendor_id'] = self.vendor_id.decode()
+        try:
+            result['vendor_id'] = self.vendor_id.decode()
+        except UnicodeDecodeError:
+            # vendor IDs are opaque octets, show the ones that are not text in hexadecimal
+            result['vendor_id'] = self.vendor_id.hex()
         return result
 
 
@@ -566,12 +570,15 @@ class PayloadID(Payload):
         return data
 
     def _id_data_str(self):
-        if self.id_type in (PayloadID.Type.ID_RFC822_ADDR, PayloadID.Type.ID_FQDN):
-            return self.id_data.decode()
-        elif self.id_type in (PayloadID.Type.ID_IPV4_ADDR, PayloadID.Type.ID_IPV6_ADDR):
-            return str(ip_address(self.id_data)),
-        else:
-            return self.id_data.hex()
+        try:
+            if self.id_type in (PayloadID.Type.ID_RFC822_ADDR, PayloadID.Type.ID_FQDN):
+                return self.id_data.decode()
+            elif self.id_type in (PayloadID.Type.ID_IPV4_ADDR, PayloadID.Type.ID_IPV6_ADDR):
+                return str(ip_address(self.id_data)),
+        except ValueError:
+            # the peer controls these octets: show in hexadecimal whatever is not a text or an address
+            pass
+        return self.id_data.hex()
 
     def to_dict(self):
         result = super().to_dict()
